@@ -1271,6 +1271,30 @@ _ure_make_expr(ucs2_t type, ucs2_t lhs, ucs2_t rhs, _ure_buffer_t *b)
     return _URE_NOOP;
 
   /*
+   * An operator without its operand(s), as in "|a", "(*)" or "a||b":
+   * the reduction would use _URE_NOOP as an index into b->expr[].
+   */
+  switch (type) {
+  case _URE_AND:
+  case _URE_OR:
+    if (rhs == _URE_NOOP) {
+      b->error = _URE_UNBALANCED_GROUP;
+      return _URE_NOOP;
+    }
+    /* fall through */
+  case _URE_STAR:
+  case _URE_PLUS:
+  case _URE_QUEST:
+    if (lhs == _URE_NOOP) {
+      b->error = _URE_UNBALANCED_GROUP;
+      return _URE_NOOP;
+    }
+    break;
+  default:
+    break;
+  }
+
+  /*
    * Determine if the expression already exists or not.
    */
   for (i = 0; i < b->expr_used; i++) {
